@@ -648,6 +648,25 @@ example : ∃ pl, verifBuildPayload .release exLeaderExt exTrailer exBuf 20 = .o
   refine ⟨⟨51, .imageExtendedChunk, some ⟨16, 2, 0, 0, .Mono8, 4⟩, exBuf, 20, 100⟩,
     by decide +kernel, rfl, by decide⟩
 
+/-- The byte order of the chunk length field is a TRANSCRIPTION CHOICE taken from the code
+(`Spec.StreamLayout.chunkLengthOrder`, assumption in props/C11.json), and it matters: this
+24-byte payload is one well-formed 16-byte chunk when its length field `10 00 00 00` is read
+little-endian (what independent recollection says U3V cameras send); the code reads
+0x10000000 and refuses it.  `walk_exact` / `build_accepts` certify the transcribed order only. -/
+def exBufLE : Bytes := List.replicate 16 9 ++ [1, 0, 0, 0, 0x10, 0, 0, 0]
+
+example : StreamLayout.ChunksBackO .little exBufLE 24 [16] ∧
+    chunkWalkRun .dev exBufLE 24 = .err .invalidPayload ∧
+    ¬ ∃ ns s, StreamLayout.ChunksBack exBufLE 24 ns ∧ ns.getLast? = some s := by
+  have hw : chunkWalkRun .dev exBufLE 24 = .err .invalidPayload := by decide
+  refine ⟨⟨by decide, by decide, ?_⟩, hw, ?_⟩
+  · show 24 - 8 - 16 = 0
+    decide
+  · rintro ⟨ns, s, hch, hlast⟩
+    have := (walk_exact .dev exBufLE 24 s (by decide) (by decide)).mpr ⟨ns, hch, hlast⟩
+    rw [hw] at this
+    cases this
+
 example : StreamLayout.ChunksBack exBuf 20 [0, 4] := by
   refine ⟨by decide, by decide, by decide, by decide, ?_⟩
   show 20 - 8 - 0 - 8 - 4 = 0
